@@ -124,8 +124,12 @@ def run_cell(cell, seed):
     ok64, y64 = util.call_lib(A64.apply, xs64)
     ok32, y32 = util.call_lib(A32.apply, xs32)
     base = {'cell': cell}
-    if not ok64 and not ok32 and cell.get('mode') == 'reflect':
-        return [res(core.SKIPPED, dict(base, check='f32'), 'M-F32', 'reflect on a short signal raises in both precisions')]
+    if not ok64 and not ok32 and (cell.get('mode') == 'reflect' or cell.get('none_mask')) \
+            and type(y64) is type(y32):
+        # reflect on a short signal, or a None level that makes the pyramid shape-inconsistent (pywt
+        # rejects those too; that is C10's subject): the same exception in both precisions is not a
+        # dtype matter
+        return [res(core.SKIPPED, dict(base, check='f32'), 'M-F32', 'raises identically in both precisions (%s)' % type(y64).__name__)]
     # dtype postcondition, explicit (the attach monitors check it too, on every call)
     for nm, ok, y, want in (('f64-built on f64', ok64, y64, f64), ('f32-built on f32', ok32, y32, f32)):
         case = dict(base, check='dtype ' + nm)
